@@ -19,7 +19,7 @@ RULE = (
     "get_time_list_for_gannt_chart == reference run-length encoding (maximal runs -> (start, len-1+margin)) for "
     "READY/WORKING (tasks, components) and FREE/WORKING/ABSENCE (workers, facilities); create_data_for_gantt_plotly "
     "rows == rows derived from the reference runs (Start=init+start*unit, Finish=init+(start+length)*unit) for "
-    "task, component, workflow, product, team, workplace; extract_*_list == objects (by identity) whose log shows "
+    "task, component, workflow, product, team, workplace, organization; extract_*_list == objects (by identity) whose log shows "
     "the state at all requested times; set_last_datetime: init+(time-1)*unit == date. The quick and thorough tiers "
     "also enumerate EVERY sequence of length <= 6 (thorough <= 8) for the four encoders; thorough adds an "
     "atheris (libFuzzer) campaign on the encoders with the same oracle inside the target. Non-trivial = a "
@@ -215,6 +215,14 @@ def check(case):
                     exp += ref_rows(nm, seq, -1, "ABSENCE", margin, init, unit)
             if rows_of(df) != sorted(exp):
                 res.fail("C19.rows", "%s rows differ (view_ready=%s view_absence=%s) for %s: %s vs %s" % (kind, view_ready, view_absence, rseqs, rows_of(df), sorted(exp)), sig=kind)
+        # organization level = team rows + workplace rows
+        org = S.BaseOrganization(team_list=[team], workplace_list=[wp])
+        df = org.create_data_for_gantt_plotly(init, unit, finish_margin=margin, view_ready=view_ready, view_absence=view_absence)
+        both = team.create_data_for_gantt_plotly(init, unit, finish_margin=margin, view_ready=view_ready, view_absence=view_absence) + wp.create_data_for_gantt_plotly(
+            init, unit, finish_margin=margin, view_ready=view_ready, view_absence=view_absence
+        )
+        if rows_of(df) != rows_of(both):
+            res.fail("C19.rows", "organization rows are not the union of its team and workplace rows (view_ready=%s view_absence=%s)" % (view_ready, view_absence), sig="organization")
 
     # 3. extract_*_list
     def expect(objs, seqs, state):
